@@ -109,6 +109,11 @@ func skipHistOp(a *cur) {
 		a.next()
 		a.next()
 		a.next()
+	case "RR":
+		a.next()
+		a.next()
+		a.next()
+		a.next()
 	case "CNT":
 	}
 }
@@ -214,6 +219,23 @@ func execHist(st *histState, a *cur, n int) toks {
 			for _, it := range items {
 				out.i(it[0])
 				out.i(it[1])
+			}
+		case "RR":
+			i := a.int()
+			kind := a.next()
+			k1, k2 := a.int(), a.int()
+			two, ok := st.views[i].RunPushTwice(kind, k1, k2)
+			if !ok {
+				out.i(NA)
+				out.i(NA)
+				break
+			}
+			for _, items := range two {
+				out.i(len(items))
+				for _, it := range items {
+					out.i(it[0])
+					out.i(it[1])
+				}
 			}
 		case "STR":
 			i := a.int()
